@@ -135,6 +135,19 @@ impl AsyncFileSystem for AsyncOverlayFS {
 
     async fn create_dir(&self, path: &str) -> VfsResult<()> {
         self.ensure_has_parent(path).await?;
+        match self.read_path(path).await {
+            Ok(existing) => {
+                return Err(if existing.is_dir().await? {
+                    VfsErrorKind::DirectoryExists.into()
+                } else {
+                    VfsErrorKind::FileExists.into()
+                })
+            }
+            Err(err) => match err.kind() {
+                VfsErrorKind::FileNotFound => {}
+                _ => return Err(err),
+            },
+        }
         self.write_path(path)?.create_dir().await?;
         let whiteout_path = self.whiteout_path(path)?;
         if whiteout_path.exists().await? {
@@ -149,6 +162,17 @@ impl AsyncFileSystem for AsyncOverlayFS {
 
     async fn create_file(&self, path: &str) -> VfsResult<Box<dyn Write + Send + Unpin>> {
         self.ensure_has_parent(path).await?;
+        match self.read_path(path).await {
+            Ok(existing) => {
+                if existing.is_dir().await? {
+                    return Err(VfsErrorKind::Other("Path is a directory".into()).into());
+                }
+            }
+            Err(err) => match err.kind() {
+                VfsErrorKind::FileNotFound => {}
+                _ => return Err(err),
+            },
+        }
         let result = self.write_path(path)?.create_file().await?;
         let whiteout_path = self.whiteout_path(path)?;
         if whiteout_path.exists().await? {
